@@ -34,7 +34,7 @@ def make_case(idx):
     prefix = ''.join(k for k, _ in gen.vi_program(R, R.randint(0, 3), kind) if '.' not in k and '@' not in k)
     c, cls = change_cmd(R, kind)
     moves = ''.join(gen.vi_motion(R) for _ in range(R.randint(0, 2)))
-    variant = R.choice(['dot', 'dot', 'ndot', 'ndot', 'macro', 'macro2', 'bigdot', 'longmacro', 'junk', 'emptydel', 'faildot', 'bigmacro', 'dotreg', 'nestmacro', 'digitmacro'])
+    variant = R.choice(['dot', 'dot', 'ndot', 'ndot', 'macro', 'macro2', 'bigdot', 'longmacro', 'junk', 'emptydel', 'faildot', 'bigmacro', 'dotreg', 'nestmacro', 'digitmacro', 'bsmacro', 'dotcol'])
     regfile = rfile = None
     if variant == 'longmacro':
         # a long register whose last key is '.', repeating a long insert: each fits the 4 KiB input queue, and the
@@ -92,6 +92,24 @@ def make_case(idx):
         rfile = (c + d).encode()
         a = prefix + moves + '%d@r' % N
         b = prefix + moves + (c + d) * N
+    elif variant == 'bsmacro':
+        # a register with an extended (backslash) name: counted, and repeated with @@
+        t2 = R.choice(['x', 'j', 'w', 'dd', '~', ''])
+        nm = R.choice('abq')
+        N = R.choice([2, 3])
+        regfile = ('rs \\' + nm + '\n' + c.replace('\n.\n', '\n,\n') + t2 + '\n.\n').encode()
+        how = R.choice(['count', 'again', 'both'])
+        a = prefix + moves + {'count': '%d@\\%s' % (N, nm), 'again': '@\\%s@@' % nm + ('@@' if N == 3 else ''), 'both': '@\\%s%d@@' % (nm, N - 1)}[how]
+        b = prefix + moves + (c.replace('\n.\n', '\n,\n') + t2 + '\n') * N
+    elif variant == 'dotcol':
+        # a repeat that fails where it is typed (too few characters left, no such target) changes nothing - not the column j and k return to either
+        lines[0:3] = ['abcdefghijklmnopqrstuvwxyz0123456789', 'ab', 'ABCDEFGHIJKLMNOPQRSTUVWXYZ0123456789']
+        c = R.choice(['5rX', 'dfq', '3x', 'ct0Z\x1b', 'd2fc'])
+        cls = 'simple'
+        col = R.choice([8, 14, 20])
+        c1 = c + '\x1b:rx . tee dot1\n'
+        a = ':1\n%d|' % col + c1 + ':1\n%d|' % col + 'j.' + R.choice(['j', 'k', 'jk'])
+        b = ':1\n%d|' % col + c1 + ':1\n%d|' % col + 'j' + c + '\x1b' + a[-1:] if False else ':1\n%d|' % col + c1 + ':1\n%d|' % col + 'j' + c + '\x1b' + a.split('j.')[-1]
     elif variant == 'dotreg':
         # register "." is a register like any other for :y; what "." repeats is the last change, not what somebody stored there
         a = prefix + c1 + moves + ':2y .\n' + '.'
@@ -166,9 +184,9 @@ def run_case(args):
         # run B reached the final :w, run A (same keys but for the repeat) did not: the repeat left the editor in another state
         return ('repeat:%s' % case['variant'], 'variant %s, change %r: run A never executed the final :w (run B did)' % (case['variant'], case['c'][:80]), wit, case)
     orig = gen.buf_bytes(case['lines'])
-    if case['variant'] in ('dot', 'ndot', 'bigdot', 'macro2', 'junk', 'dotreg', 'faildot') and not (da == db == case['c'].encode()):
+    if case['variant'] in ('dot', 'ndot', 'bigdot', 'macro2', 'junk', 'dotreg', 'faildot', 'dotcol') and not (da == db == case['c'].encode()):
         return ('ok-trivial', None, None, case)      # the first c was not taken as one command (failed motion: the rest of its keys ran on their own)
-    if case['variant'] not in ('macro', 'bigmacro', 'nestmacro', 'digitmacro'):
+    if case['variant'] not in ('macro', 'bigmacro', 'nestmacro', 'digitmacro', 'bsmacro'):
         # the change must have been taken as ONE repeatable command: register '.' (revealed at the end of run B) holds exactly its keys
         parts = ob.split(DOTSENT + b'\n')
         dot = parts[1][:-1] if len(parts) >= 3 else None
